@@ -31,3 +31,19 @@ func VerifMatchInnersToPolygons(polygons [][][][2]float64, innerRings [][][2]flo
 func VerifKmpSearchAll(corpus, find [][2]float64) []int {
 	return kmpSearchAll(corpus, find)
 }
+
+// VerifTrace, when set by the verification harness, receives the intermediate results of addPointsAndSnap:
+//
+//	"seg"       ring index, vertex index, level, vertices appended to the new ring for this segment
+//	"ring"      ring index, level, the routed ring, then outer rings, inner rings, points and lines after clean-up
+//	"drop"      ring index, level (the level is abandoned because the outer ring collapsed)
+//	"assembled" level, polygons after matching inner to outer rings (and reversal if configured)
+var VerifTrace func(ev string, args ...any)
+
+const verifEnabled = true
+
+func verifTrace(ev string, args ...any) {
+	if VerifTrace != nil {
+		VerifTrace(ev, args...)
+	}
+}
